@@ -2215,10 +2215,141 @@ fn authz_table(rep: &mut SearchReport, seed: u64) -> Result<(), String> {
     Ok(())
 }
 
+
+// ---------------------------------------------------------------------------------------------
+// every enum value that crosses the boundary arrives as its same-named counterpart: the
+// library's own conversions (the ones its creation functions and listeners use) applied to
+// every member. Needed besides the behavioural tables because some settings leave no trace the
+// harness can observe (a pseudo-terminal ignores data bits and parity).
+
+fn conversion_table(rep: &mut SearchReport) -> Result<(), String> {
+    let mut rows = 0u64;
+    let mut bad: Option<(String, serde_json::Value)> = None;
+    let check = |what: &str, c_name: String, rust_name: String, rows: &mut u64, bad: &mut Option<(String, serde_json::Value)>| {
+        *rows += 1;
+        if c_name != rust_name && bad.is_none() {
+            *bad = Some((
+                format!("{}: the C value {} becomes the Rust value {}", what, c_name, rust_name),
+                json!({"table": "conversions", "what": what, "c": c_name, "rust": rust_name}),
+            ));
+        }
+    };
+    // serial settings: 4 x 3 x 2 x 3 combinations, each field on its own
+    let dbs = [ffi::DataBits::Five, ffi::DataBits::Six, ffi::DataBits::Seven, ffi::DataBits::Eight];
+    let fls = [ffi::FlowControl::None, ffi::FlowControl::Software, ffi::FlowControl::Hardware];
+    let pars = [ffi::Parity::None, ffi::Parity::Odd, ffi::Parity::Even];
+    let sbs = [ffi::StopBits::One, ffi::StopBits::Two];
+    for db in dbs {
+        for fl in fls {
+            for par in pars {
+                for sb in sbs {
+                    for baud in [300u32, 9600, 4_000_000] {
+                        let c: ffi::SerialPortSettings = ffi::SerialPortSettingsFields {
+                            baud_rate: baud,
+                            data_bits: db,
+                            flow_control: fl,
+                            parity: par,
+                            stop_bits: sb,
+                        }
+                        .into();
+                        let r: rodbus::SerialSettings = c.into();
+                        check("serial data bits", format!("{:?}", db), format!("{:?}", r.data_bits), &mut rows, &mut bad);
+                        check("serial flow control", format!("{:?}", fl), format!("{:?}", r.flow_control), &mut rows, &mut bad);
+                        check("serial parity", format!("{:?}", par), format!("{:?}", r.parity), &mut rows, &mut bad);
+                        check("serial stop bits", format!("{:?}", sb), format!("{:?}", r.stop_bits), &mut rows, &mut bad);
+                        check("serial baud rate", format!("{}", baud), format!("{}", r.baud_rate), &mut rows, &mut bad);
+                    }
+                }
+            }
+        }
+    }
+    // decode levels: all 36
+    let apps = [ffi::AppDecodeLevel::Nothing, ffi::AppDecodeLevel::FunctionCode, ffi::AppDecodeLevel::DataHeaders, ffi::AppDecodeLevel::DataValues];
+    let frames = [ffi::FrameDecodeLevel::Nothing, ffi::FrameDecodeLevel::Header, ffi::FrameDecodeLevel::Payload];
+    let physs = [ffi::PhysDecodeLevel::Nothing, ffi::PhysDecodeLevel::Length, ffi::PhysDecodeLevel::Data];
+    for a in apps {
+        for f in frames {
+            for ph in physs {
+                let c: ffi::DecodeLevel = ffi::DecodeLevelFields {
+                    app: a,
+                    frame: f,
+                    physical: ph,
+                }
+                .into();
+                let r: DecodeLevel = c.into();
+                check("decode level (app)", format!("{:?}", a), format!("{:?}", r.app), &mut rows, &mut bad);
+                check("decode level (frame)", format!("{:?}", f), format!("{:?}", r.frame), &mut rows, &mut bad);
+                check("decode level (physical)", format!("{:?}", ph), format!("{:?}", r.physical), &mut rows, &mut bad);
+            }
+        }
+    }
+    // connection states and port states: Rust -> C
+    let d = Duration::from_millis(7);
+    for st in [
+        ClientState::Disabled,
+        ClientState::Connecting,
+        ClientState::Connected,
+        ClientState::WaitAfterFailedConnect(d),
+        ClientState::WaitAfterDisconnect(d),
+        ClientState::Shutdown,
+    ] {
+        let c: ffi::ClientState = st.into();
+        let rn = format!("{:?}", st);
+        check("client state", format!("{:?}", c), rn.split('(').next().unwrap().to_string(), &mut rows, &mut bad);
+    }
+    for st in [
+        rodbus::client::PortState::Disabled,
+        rodbus::client::PortState::Wait(d),
+        rodbus::client::PortState::Open,
+        rodbus::client::PortState::Shutdown,
+    ] {
+        let c: ffi::PortState = st.into();
+        let rn = format!("{:?}", st);
+        check("port state", format!("{:?}", c), rn.split('(').next().unwrap().to_string(), &mut rows, &mut bad);
+    }
+    // authorization answers, TLS enums
+    for (c, name) in [(ffi::Authorization::Allow, "Allow"), (ffi::Authorization::Deny, "Deny")] {
+        let r: rodbus::server::Authorization = c.into();
+        check("authorization", name.to_string(), format!("{:?}", r), &mut rows, &mut bad);
+    }
+    for (c, name) in [(ffi::MinTlsVersion::V12, "V1_2"), (ffi::MinTlsVersion::V13, "V1_3")] {
+        let r: rodbus::client::MinTlsVersion = c.into();
+        check("minimum TLS version", name.to_string(), format!("{:?}", r), &mut rows, &mut bad);
+    }
+    for (c, name) in [(ffi::CertificateMode::AuthorityBased, "AuthorityBased"), (ffi::CertificateMode::SelfSigned, "SelfSigned")] {
+        let r: rodbus::client::CertificateMode = c.into();
+        check("certificate mode", name.to_string(), format!("{:?}", r), &mut rows, &mut bad);
+    }
+    // retry strategy: the delays a converted strategy hands out are those of the Rust strategy
+    for (min, max) in [(1u64, 1u64), (40, 130), (100, 100_000), (7, 8)] {
+        let mut c: Box<dyn rodbus::RetryStrategy> = retry_strategy(min, max).into();
+        let mut r = rodbus::doubling_retry_strategy(Duration::from_millis(min), Duration::from_millis(max));
+        for k in 0..14 {
+            let (a, b) = if k == 9 {
+                c.reset();
+                r.reset();
+                (c.after_disconnect(), r.after_disconnect())
+            } else {
+                (c.after_failed_connect(), r.after_failed_connect())
+            };
+            check(&format!("retry strategy ({} ms, {} ms), call {}", min, max, k), format!("{:?}", a), format!("{:?}", b), &mut rows, &mut bad);
+        }
+    }
+    rep.stats.evaluations += rows;
+    if let Some((m, c)) = bad {
+        fail(rep, m, c);
+        return Ok(());
+    }
+    rep.stats.nontrivial_total += rows;
+    rep.stats.distinct.insert(crate::runner::hash_of(&"conversion_table".to_string()));
+    *rep.stats.labels.entry("conversion_rows".to_string()).or_insert(0) += rows;
+    Ok(())
+}
+
 pub fn c18_tables(ctx: &Ctx) -> SearchReport {
     let mut rep = SearchReport::empty(
         "c18_tables",
-        "differential tables, every row visited: (1) 8 client operations x {12 successes with random unit/range/values, each of the 256 exception codes, malformed reply, reply of another function, silence (timeout), close, malformed MBAP header} through the Rust API and through the extern \"C\" functions against the same scripted peer: identical request bytes on the wire, identical values, error reported as the same-named ffi::RequestError value, exactly one completion callback; (2) not connected / queue full (capacity 1, silent peer) / runtime destroyed: return code and exactly one callback; (3) 4 write callbacks x WriteResult {success, 9 standard exceptions, raw 0..255}: the raw TCP client must receive the echo or [fc|0x80, code]; (4) all 36 decode levels: log classes of a C-ABI server equal those of a Rust server at the same-named level; (5) configuration pass-through: reconnect waits of a C-ABI client with retry (40 ms, 130 ms) measured through its listener; 120 serial-setting combinations (baud x data bits x parity x stop bits x flow control): termios of a pty opened through the C ABI equals termios of a pty opened through the Rust API with the same-named values; 54 TLS client and 48 TLS server configurations created through the C ABI (minimum version x versions the peer offers x certificate mode x expected name incl. the '*' switch x configured / presented certificates x authorization): created iff the Rust API accepts the same-named configuration, and a rustls peer is served iff the Rust API would serve it; max_sessions of a C-ABI server in {1,2,3,5}: one connection too many closes exactly the first; 48 requests of all eight kinds to a C-ABI TLS server with authorization callbacks: exactly the callback of that kind runs, with the unit id, range or index and the (UTF-8) role of the client certificate unchanged, Deny gives exception 01 and Allow the normal reply. Non-trivial = every row other than a plain success.",
+        "differential tables, every row visited: (1) 8 client operations x {12 successes with random unit/range/values, each of the 256 exception codes, malformed reply, reply of another function, silence (timeout), close, malformed MBAP header} through the Rust API and through the extern \"C\" functions against the same scripted peer: identical request bytes on the wire, identical values, error reported as the same-named ffi::RequestError value, exactly one completion callback; (2) not connected / queue full (capacity 1, silent peer) / runtime destroyed: return code and exactly one callback; (3) 4 write callbacks x WriteResult {success, 9 standard exceptions, raw 0..255}: the raw TCP client must receive the echo or [fc|0x80, code]; (4) all 36 decode levels: log classes of a C-ABI server equal those of a Rust server at the same-named level; (5) configuration pass-through: reconnect waits of a C-ABI client with retry (40 ms, 130 ms) measured through its listener; 120 serial-setting combinations (baud x data bits x parity x stop bits x flow control): termios of a pty opened through the C ABI equals termios of a pty opened through the Rust API with the same-named values; 54 TLS client and 48 TLS server configurations created through the C ABI (minimum version x versions the peer offers x certificate mode x expected name incl. the '*' switch x configured / presented certificates x authorization): created iff the Rust API accepts the same-named configuration, and a rustls peer is served iff the Rust API would serve it; max_sessions of a C-ABI server in {1,2,3,5}: one connection too many closes exactly the first; 48 requests of all eight kinds to a C-ABI TLS server with authorization callbacks: exactly the callback of that kind runs, with the unit id, range or index and the (UTF-8) role of the client certificate unchanged, Deny gives exception 01 and Allow the normal reply; the library's own enum conversions applied to every member (serial settings 216 combinations, 36 decode levels, connection and port states, authorization answers, TLS enums) and the delays of converted retry strategies. Non-trivial = every row other than a plain success.",
     );
     let steps: Vec<(&str, Box<dyn Fn(&mut SearchReport) -> Result<(), String>>)> = vec![
         ("client_table", Box::new({
@@ -2232,6 +2363,7 @@ pub fn c18_tables(ctx: &Ctx) -> SearchReport {
         ("serial_settings_table", Box::new(serial_settings_table)),
         ("tls_config_table", Box::new(tls_config_table)),
         ("max_sessions_passthrough", Box::new(max_sessions_passthrough)),
+        ("conversion_table", Box::new(conversion_table)),
         ("authz_table", Box::new({
             let seed = ctx.seed;
             move |r: &mut SearchReport| authz_table(r, seed)
